@@ -68,3 +68,8 @@ for _s, _fn, _files in (("html", "mmd_export_token_html", ["html.c"]), ("latex",
       callees={"get_fence_language_specifier": "contract stub: NULL or a fresh string with any content", "raw_filter_text_matches": "any answer",
                "d_string_append_c_array": "contract stub asserting that the range lies inside the source", "every other callee": "body removed, nondet return value"},
       min_obligations=20, timeout=300, cost=15, assumptions=[NOFAIL, "configuration -DI18N_DISABLED"])
+
+U("c01_store_asset_key", ["C01", "C09"], "h_store_asset", ["C01/store_asset.c"], ["writer.c"], plain=True, lib=("lib/libc_models.c",), kind="bounded",
+  defines=["-DI18N_DISABLED=1"], cbmc_flags=["--unwind", "70", "--unwinding-assertions", "--object-bits", "12"], bounds={"url": "one concrete URL, stored twice", "unwind": 70},
+  functions=["store_asset", "extract_asset", "asset_new", "my_strdup (writer.c)"], callees={"uthash macros": "real code", "uuid_new": "stub (fresh string)", "strlen/strcpy": "byte-loop models"},
+  min_obligations=10, timeout=300, cost=10, assumptions=[NOFAIL])
